@@ -268,6 +268,13 @@ def _big_strings(ctx, su, n_random):
     for deco in (valid[:11] + '-' + valid[11:], '{' + valid + '}', 'urn:uuid:' + valid, 'urn:' + valid, 'uuid:' + valid,
                  '-' + valid, valid + '-', valid[:8] + '-' + valid[8:12] + '-' + valid[12:]):
         strs.add(deco)
+    # white space / line ends around a valid string (23 characters and more: to be rejected), and strings that differ from a
+    # valid one only in the case of their letters (other strings: other UUIDs, or no UUID at all)
+    for v2 in (valid, ''.join(al[ctx.rnd.randrange(57)] for _ in range(21)) + al[1]):
+        for deco in (v2 + '\n', '\n' + v2, v2 + ' ', ' ' + v2, v2 + '\r\n', v2 + '\t', v2[:-1] + '\n', v2 + '\x00'):
+            strs.add(deco)
+        for twin in (v2.lower(), v2.upper(), v2.swapcase(), v2[:5].swapcase() + v2[5:]):
+            strs.add(twin)
     for _ in range(n_random):
         k = ctx.rnd.random()
         if k < 0.6:
